@@ -53,3 +53,5 @@ func (g *GenStore) userOf(prefix, name string) string { return "" }
 func (g *GenStore) boundIntfs() []string { return nil }
 
 func (g *GenStore) canon(s *State, sc Scope) []string { return nil }
+
+func (g *GenStore) managedACLs(s *State, sc Scope) []string { return nil }
